@@ -55,3 +55,15 @@ Definition fcmp (x y : f64) : comparison :=
 Fixpoint fsum (l : list f64) (acc : f64) : f64 :=
   match l with [] => acc | v :: l' => fsum l' (fadd acc v) end.
 Definition fmean (l : list f64) : f64 := fdiv (fsum l fnzero) (of_N (N.of_nat (length l))).
+
+(** structural equality (bit-for-bit on non-NaN values; there is a single NaN) *)
+Definition sf_eqb (a b : SpecFloat.spec_float) : bool :=
+  match a, b with
+  | SpecFloat.S754_zero s, SpecFloat.S754_zero s' => Bool.eqb s s'
+  | SpecFloat.S754_infinity s, SpecFloat.S754_infinity s' => Bool.eqb s s'
+  | SpecFloat.S754_nan, SpecFloat.S754_nan => true
+  | SpecFloat.S754_finite s m e, SpecFloat.S754_finite s' m' e' => Bool.eqb s s' && Pos.eqb m m' && Z.eqb e e'
+  | _, _ => false
+  end.
+Definition fbits_eq (x y : f64) : bool := sf_eqb (B2SF x) (B2SF y).
+
